@@ -208,7 +208,7 @@ fn q(rng: &mut Rng) -> &'static str { if rng.chance(1, 4) { "y" } else { "n" } }
 const CK_KINDS: &[(&str, &[(&str, &str)])] = &[("CkA", &[("a", "str")]), ("CkAB", &[("a", "str"), ("b", "str")]), ("CkBA", &[("b", "str"), ("a", "str")]),
     ("CkOpt", &[("a", "str"), ("o", "optstr")]), ("CkRen", &[("x-y", "str"), ("$t!", "str")]), ("CkNum", &[("n", "u32"), ("a", "str")])];
 pub fn gen(rng: &mut Rng, _i: usize) -> Value {
-    let big_turn = _i % 1500 == 7;      // (judging a line of 4 KiB byte by byte inside TLC takes a minute: a few per run)
+    let big_turn = _i % 1500 == 7 && _i < 9000;      // (judging a line of 4 KiB byte by byte inside TLC takes a minute: a few per run)
     match if big_turn { 9 } else { rng.below(10) } {
         0..=3 => {
             if rng.chance(1, 5) {
